@@ -290,12 +290,12 @@ func NewSSTableReader(readerOptions ...ReadOption) (SSTableReaderI, error) {
 
 	err = index.Open()
 	if err != nil {
-		return nil, fmt.Errorf("error while opening index of sstable in '%s': %w", opts.basePath, err)
+		return nil, errors.Join(fmt.Errorf("error while opening index of sstable in '%s': %w", opts.basePath, err), index.Close())
 	}
 
 	filter, err := readFilterIfExists(filepath.Join(opts.basePath, BloomFileName))
 	if err != nil {
-		return nil, fmt.Errorf("error while reading filter of sstable in '%s': %w", opts.basePath, err)
+		return nil, errors.Join(fmt.Errorf("error while reading filter of sstable in '%s': %w", opts.basePath, err), index.Close())
 	}
 
 	reader := &SSTableReader{opts: opts, bloomFilter: filter, index: index, metaData: metaData}
@@ -303,24 +303,24 @@ func NewSSTableReader(readerOptions ...ReadOption) (SSTableReaderI, error) {
 	if metaData.Version == 0 {
 		v0DataReader, err := rProto.NewMMapProtoReaderWithPath(filepath.Join(opts.basePath, DataFileName))
 		if err != nil {
-			return nil, fmt.Errorf("error while creating proto data reader of sstable in '%s': %w", opts.basePath, err)
+			return nil, errors.Join(fmt.Errorf("error while creating proto data reader of sstable in '%s': %w", opts.basePath, err), index.Close())
 		}
 
 		err = v0DataReader.Open()
 		if err != nil {
-			return nil, fmt.Errorf("error while opening proto data reader of sstable in '%s': %w", opts.basePath, err)
+			return nil, errors.Join(fmt.Errorf("error while opening proto data reader of sstable in '%s': %w", opts.basePath, err), v0DataReader.Close(), index.Close())
 		}
 
 		reader.v0DataReader = v0DataReader
 	} else {
 		dataReader, err := recordio.NewMemoryMappedReaderWithPath(filepath.Join(opts.basePath, DataFileName))
 		if err != nil {
-			return nil, fmt.Errorf("error while creating data reader of sstable in '%s': %w", opts.basePath, err)
+			return nil, errors.Join(fmt.Errorf("error while creating data reader of sstable in '%s': %w", opts.basePath, err), index.Close())
 		}
 
 		err = dataReader.Open()
 		if err != nil {
-			return nil, fmt.Errorf("error while opening data reader of sstable in '%s': %w", opts.basePath, err)
+			return nil, errors.Join(fmt.Errorf("error while opening data reader of sstable in '%s': %w", opts.basePath, err), dataReader.Close(), index.Close())
 		}
 
 		reader.dataReader = dataReader
@@ -334,7 +334,7 @@ func NewSSTableReader(readerOptions ...ReadOption) (SSTableReaderI, error) {
 		if reader.dataReader != nil {
 			err = errors.Join(err, reader.dataReader.Close())
 		}
-		return nil, err
+		return nil, errors.Join(err, index.Close())
 	}
 
 	return reader, nil
